@@ -655,34 +655,73 @@ func init() {
 				var idxT, bitT []ssa.Value
 				okShape := true
 				why := ""
+				// through a private helper that returns (word, bit) for a TSN: cell(tsn) → (tsn/64)%len, tsn%64
+				var viaHelperT func(v ssa.Value, want string, d int) (ssa.Value, bool)
+				viaHelperT = func(v ssa.Value, want string, d int) (ssa.Value, bool) {
+					v = unconv(v)
+					if b, ok := v.(*ssa.BinOp); ok && b.Op == token.REM {
+						if want == "idx" {
+							if quo, isQ := unconv(b.X).(*ssa.BinOp); isQ && quo.Op == token.QUO && IsConstInt(64)(quo.Y) {
+								return unconv(quo.X), true
+							}
+							return nil, false
+						}
+						if IsConstInt(64)(b.Y) {
+							return unconv(b.X), true
+						}
+						return nil, false
+					}
+					ex, ok := v.(*ssa.Extract)
+					if !ok || d > 2 {
+						return nil, false
+					}
+					call, ok := ex.Tuple.(*ssa.Call)
+					if !ok {
+						return nil, false
+					}
+					rs := helperReturns(call, ex.Index)
+					if len(rs) != 1 {
+						return nil, false
+					}
+					t, ok := viaHelperT(rs[0], want, d+1)
+					if !ok {
+						return nil, false
+					}
+					if p, isP := t.(*ssa.Parameter); isP && p.Parent() == call.Call.StaticCallee() {
+						for i, q := range p.Parent().Params {
+							if q == p && i < len(call.Call.Args) {
+								return unconv(call.Call.Args[i]), true
+							}
+						}
+					}
+					return t, true
+				}
 				for _, g := range c.P.Region(fn) {
+					if g != fn && enclosingNamed(g) != fn {
+						continue
+					}
 					forEachInstr(g, func(in ssa.Instruction) {
 						switch x := in.(type) {
 						case *ssa.IndexAddr:
 							if !IsLoadOf(bm)(x.X) {
 								return
 							}
-							rem, ok := unconv(x.Index).(*ssa.BinOp)
-							if !ok || rem.Op != token.REM {
+							t, ok := viaHelperT(x.Index, "idx", 0)
+							if !ok {
 								okShape, why = false, "word index is not (T/64) mod len"
 								return
 							}
-							quo, ok := unconv(rem.X).(*ssa.BinOp)
-							if !ok || quo.Op != token.QUO || !IsConstInt(64)(quo.Y) {
-								okShape, why = false, "word index is not (T/64) mod len"
-								return
-							}
-							idxT = append(idxT, unconv(quo.X))
+							idxT = append(idxT, t)
 						case *ssa.BinOp:
 							if x.Op != token.SHL || !IsConstInt(1)(unconv(x.X)) {
 								return
 							}
-							rem, ok := unconv(x.Y).(*ssa.BinOp)
-							if !ok || rem.Op != token.REM || !IsConstInt(64)(rem.Y) {
+							t, ok := viaHelperT(x.Y, "bit", 0)
+							if !ok {
 								okShape, why = false, "bit position is not T mod 64 (an offset was added or the expression changed)"
 								return
 							}
-							bitT = append(bitT, unconv(rem.X))
+							bitT = append(bitT, t)
 						}
 					})
 				}
